@@ -98,18 +98,30 @@ pub fn run(out: &mut Out, rng: &mut Rng, thorough: bool) {
 // too large for the exact oracle, so the invariants of the property are evaluated here, on the implementation's own output,
 // and the record carries their outcome (integers and a few floats).
 // ------------------------------------------------------------------------------------------------
-fn bigcell_one(nshell: usize, rng: &mut Rng) -> String {
+fn bigcell_one(nshell: usize, ring: bool, rng: &mut Rng) -> String {
     use glam::DVec3;
     let c = DVec3::splat(0.5);
     let mut gens = vec![c];
-    // Fibonacci lattice on the sphere + jitter: evenly spread, every shell generator is a neighbour of the centre
-    let golden = std::f64::consts::PI * (3.0 - 5f64.sqrt());
-    for i in 0..nshell {
-        let z = 1.0 - 2.0 * (i as f64 + 0.5) / nshell as f64;
-        let r = (1.0 - z * z).sqrt();
-        let a = golden * i as f64;
-        let d = DVec3::new(r * a.cos(), r * a.sin(), z);
-        gens.push(c + d * 0.3 * (1.0 + 1e-4 * (rng.f64() - 0.5)));
+    if ring {
+        // ONE FACE with `nshell` vertices: two generators on the axis of a ring of `nshell` generators; the face between the
+        // two is an `nshell`-gon (vertex counts per face beyond 255 / 65535 …)
+        gens[0] = c - DVec3::new(0., 0., 0.05);
+        gens.push(c + DVec3::new(0., 0., 0.05));
+        let phase = rng.f64();
+        for i in 0..nshell {
+            let a = (i as f64 + phase) / nshell as f64 * std::f64::consts::TAU;
+            gens.push(c + DVec3::new(a.cos(), a.sin(), 0.) * 0.3 * (1.0 + 1e-4 * (rng.f64() - 0.5)));
+        }
+    } else {
+        // Fibonacci lattice on the sphere + jitter: evenly spread, every shell generator is a neighbour of the centre
+        let golden = std::f64::consts::PI * (3.0 - 5f64.sqrt());
+        for i in 0..nshell {
+            let z = 1.0 - 2.0 * (i as f64 + 0.5) / nshell as f64;
+            let r = (1.0 - z * z).sqrt();
+            let a = golden * i as f64;
+            let d = DVec3::new(r * a.cos(), r * a.sin(), z);
+            gens.push(c + d * 0.3 * (1.0 + 1e-4 * (rng.f64() - 0.5)));
+        }
     }
     let mut mask = vec![false; gens.len()];
     mask[0] = true;
@@ -125,6 +137,7 @@ fn bigcell_one(nshell: usize, rng: &mut Rng) -> String {
     let ai = cell.compute_face_integrals::<(), AreaCentroidIntegral>(());
     let mut area_dev: f64 = 0.;
     let mut area_sum = 0.;
+    let mut max_fv = 0usize;
     for f in 0..nf {
         let pl = cell.clipping_plane(f);
         let pidx = cell.clipping_planes.iter().position(|h| std::ptr::eq(&h.plane, pl));
@@ -146,6 +159,7 @@ fn bigcell_one(nshell: usize, rng: &mut Rng) -> String {
             acc_bad += 1;
         }
         halfedges += vs.len();
+        max_fv = max_fv.max(vs.len());
         let mut poly = DVec3::ZERO;
         for (k, &v) in vs.iter().enumerate() {
             if v >= nv {
@@ -178,15 +192,21 @@ fn bigcell_one(nshell: usize, rng: &mut Rng) -> String {
     let inc_bad = per_vertex.iter().filter(|&&k| k != 3).count();
     let euler = nv as i64 - (halfedges / 2) as i64 + nf as i64;
     format!(
-        "BIG np {} nv {} nf {} ai {} euler {} incidence_bad {} onplane_bad {} cycle_bad {} range_bad {} accessor_bad {} area_dev {} area_sum {}",
-        np, nv, nf, ai.len(), euler, inc_bad, onplane_bad, cycle_bad, range_bad, acc_bad, fx(area_dev), fx(area_sum)
+        "BIG np {} nv {} nf {} ai {} euler {} incidence_bad {} onplane_bad {} cycle_bad {} range_bad {} accessor_bad {} area_dev {} area_sum {} maxfv {}",
+        np, nv, nf, ai.len(), euler, inc_bad, onplane_bad, cycle_bad, range_bad, acc_bad, fx(area_dev), fx(area_sum), max_fv
     )
 }
 
 pub fn run_bigcell(out: &mut Out, rng: &mut Rng, thorough: bool) {
     for &n in if thorough { &[700usize, 12000, 23000][..] } else { &[700usize, 11500][..] } {
         let mut r2 = rng.fork(n as u64);
-        let res = guarded(std::panic::AssertUnwindSafe(move || bigcell_one(n, &mut r2))).unwrap_or_else(|e| format!("WFPANIC {}", e));
+        let res = guarded(std::panic::AssertUnwindSafe(move || bigcell_one(n, false, &mut r2))).unwrap_or_else(|e| format!("WFPANIC {}", e));
         out.rec("bigcell", "shell3r_unit_z", &format!("{}", n), &res);
+    }
+    // one face with hundreds of vertices (thorough: more than 65536 is out of reach of the ring construction in f64, 1000 … 5000)
+    for &n in if thorough { &[255usize, 256, 257, 1000, 5000][..] } else { &[256usize, 300][..] } {
+        let mut r2 = rng.fork(7 * n as u64);
+        let res = guarded(std::panic::AssertUnwindSafe(move || bigcell_one(n, true, &mut r2))).unwrap_or_else(|e| format!("WFPANIC {}", e));
+        out.rec("bigcell", "ring3r_unit_z", &format!("{}", n), &res);
     }
 }
